@@ -5,7 +5,7 @@ from engine.api import Ob, pick, choose, cover, selftest_ob
 from ref import term
 from ref.view import S, TEXT, SIGMA, build2, norm_slice, ranges
 
-from ansi_string import AnsiString
+from ansi_string import AnsiString, AnsiStr
 
 LEVEL = 'model_checking'
 
@@ -68,7 +68,7 @@ def h_remove(n: int, k: int, s1: int, r1: int, s2: int, r2: int, t2: bool, sel: 
     return True
 
 
-def h_remove3(n: int, s1: int, r1: int, s2: int, r2: int, s3: int, r3: int, sel: int, rr: int):
+def h_remove3(n: int, s1: int, r1: int, s2: int, r2: int, s3: int, r3: int, sel: int, rr: int, cls: int):
     """Three builder steps over the conflicting pair (equal-valued instances included); the removal range is canonical."""
     s = AnsiString(TEXT[:n])
     from ref.view import b1_step
@@ -78,15 +78,23 @@ def h_remove3(n: int, s1: int, r1: int, s2: int, r2: int, s3: int, r3: int, sel:
         return None
     if b1_step(s, n, s3, r3, True, SIG2) is None:
         return None
-    q = choose(sel, (0, 1, 3))
+    q = choose(sel, (0, 1, 3, 2))
     if q is None:
         return None
     rg = choose(rr, ranges(n))
     if rg is None:
         return None
+    if cls not in (0, 1):
+        return None
     arg, texts = SELS[q]
     before = S(s, n)
-    s.remove_formatting(arg, rg[0], rg[1])
+    if cls == 1:
+        a = AnsiStr(s)
+        s = a.remove_formatting(arg, rg[0], rg[1])
+        if S(a, n) != before or not isinstance(s, AnsiStr):
+            return ('ansistr-receiver-changed', before, S(a, n))
+    else:
+        s.remove_formatting(arg, rg[0], rg[1])
     after = S(s, n)
     for i in range(n):
         if rg[0] <= i < rg[1]:
@@ -143,7 +151,7 @@ def obligations(tier):
     for s1 in range(2):
         for r1 in (2, 4, 5) if tier == 'quick' else range(6):
             obs.append(Ob('remove3/n3/s%d/r%d' % (s1, r1), h_remove3, dict(n=3, s1=s1, r1=r1), need=('removed3', 'equal-instances'), budget=900,
-                          bounds='n=3, 3 apply steps over (red, blue) incl. equal-valued instances, canonical removal ranges, selections None/red/blue', kinds=KINDS))
+                          bounds='n=3, 3 apply steps over (red, blue) incl. equal-valued instances, canonical removal ranges, selections None/red/blue/[red,bold], AnsiString and AnsiStr', kinds=KINDS))
     obs.append(Ob('clear/b2/n2', h_clear, dict(n=2, k=2), need=('cleared',), budget=300, bounds='n=2', kinds=KINDS))
     if tier == 'quick':
         for s1 in range(2):
